@@ -186,9 +186,10 @@ func genRecord(r *rng) *grec {
 		g.block = []byte(pick(r, blockPool))
 		add("WARC-Target-URI", "http://example.com/")
 		add("WARC-Segment-Origin-ID", "<urn:uuid:aaaaaaaa-0000-4000-8000-000000000003>")
-		add("WARC-Segment-Number", "2")
+		// valid spellings that are not the canonical rendering of the number: a validator must not hand back a re-rendered value
+		add("WARC-Segment-Number", pick(r, []string{"2", "2", "2", "007", "02", "10"}))
 		if r.chance(1, 2) {
-			add("WARC-Segment-Total-Length", "1234")
+			add("WARC-Segment-Total-Length", pick(r, []string{"1234", "1234", "01234", "0"}))
 		}
 	default: // resource, conversion, unknown
 		ct = pick(r, []string{"text/plain", "application/octet-stream", "image/png", "text/html; charset=utf-8"})
